@@ -56,6 +56,8 @@ type Engine struct {
 	curPureDynamic  bool
 	debugPanics     bool
 	keys            []string
+	funcByTerm      map[string]*ssa.Function
+	specialize      map[string]string // parameter name -> function key, for the function currently verified
 	defaults        map[string]*Contract
 	ginit           map[*ssa.Global][]globalInitFact
 	bodySum         map[*ssa.Function]map[string]bool
@@ -79,7 +81,7 @@ func newEngine(repoDir, verifDir string) *Engine {
 	return &Engine{repoDir: repoDir, verifDir: verifDir, allPkgs: map[string]*packages.Package{}, contracts: map[string]*Contract{}, specs: map[string]*specFn{},
 		fnByKey: map[string]*ssa.Function{}, globals: map[*ssa.Global]int{}, funcs: map[*ssa.Function]int{}, srcCache: map[string][]string{},
 		writeSum: map[*ssa.Function]map[string]bool{}, implCache: map[string][]impl{}, sizeCache: map[*ssa.Function]int{},
-		inlineLimit: 400, dispatchLimit: 10, pureExterns: map[string]bool{}, inlineExterns: map[string]bool{}}
+		funcByTerm: map[string]*ssa.Function{}, inlineLimit: 400, dispatchLimit: 10, pureExterns: map[string]bool{}, inlineExterns: map[string]bool{}}
 }
 
 func (eng *Engine) load(patterns []string) error {
@@ -341,6 +343,7 @@ func (eng *Engine) defaultContract(fn *ssa.Function) *Contract {
 			if err := cl.parse(); err == nil {
 				ct.Modifies = []*Clause{cl}
 			}
+			ct.ModifiesRecvSlices = true
 		}
 	}
 	if eng.defaults == nil {
